@@ -8,12 +8,12 @@ import numpy as np
 import torch
 import torchtt
 
-from rt_common import (case_id, clause, contract, dense, dtype_of, fro, rand_tt, scale_tag, scale_tt, seed_all, shape_of,
-                       snapshot_tt, unchanged, within)
+from rt_common import (case_id, clause, contract, dense, dense_longdouble, dtype_of, fro, frozen, rand_tt, scale_tag, scale_tt,
+                       seed_all, shape_of, snapshot_tt, unchanged, unchanged_named, within)
 
 C = 100.0
 TOL_FLOOR = 1e-8       # tolerance used for the `/` operators (library-internal eps is 1e-12)
-EXACT = 1e-14          # "exact": a few ulps, relative
+EXACT = 4 * 2.220446049250313e-16   # "exact": 4*eps(float64), relative; the oracle is evaluated in extended precision
 
 
 def _bounded_away(y, lo=0.5):
@@ -45,7 +45,10 @@ def _finite(result):
 
 
 @contract
-@clause("quotient", lambda result, x, y: _quotient(result, dense(x), y, TOL_FLOOR))
+@icontract.snapshot(lambda x: snapshot_tt(x), name="x")
+@icontract.snapshot(lambda y: snapshot_tt(y), name="y")
+@clause("operands_unchanged", lambda OLD, x, y: unchanged_named([("x", OLD.x, x), ("y", OLD.y, y)]))
+@clause("quotient", lambda result, OLD: _quotient(result, dense(frozen(OLD.x)), frozen(OLD.y), TOL_FLOOR))
 @clause("finite", lambda result: _finite(result))
 @clause("shape", lambda result, y: _shape(result, y))
 @clause("is_tt", lambda result: _is_tt(result))
@@ -56,8 +59,10 @@ def tt_div_tt(x, y):
 
 
 @contract
-@clause("quotient", lambda result, s, y: _quotient(
-    result, float(s) * torch.ones_like(dense(y)), y, TOL_FLOOR))
+@icontract.snapshot(lambda y: snapshot_tt(y), name="y")
+@clause("operands_unchanged", lambda OLD, y: unchanged_named([("y", OLD.y, y)]))
+@clause("quotient", lambda result, s, OLD: _quotient(
+    result, float(s) * torch.ones_like(dense(frozen(OLD.y))), frozen(OLD.y), TOL_FLOOR))
 @clause("finite", lambda result: _finite(result))
 @clause("shape", lambda result, y: _shape(result, y))
 @clause("is_tt", lambda result: _is_tt(result))
@@ -68,8 +73,11 @@ def scalar_div_tt(s, y):
 
 @contract
 @icontract.snapshot(lambda starting_tensor: snapshot_tt(starting_tensor), name="guess")
-@clause("guess_modified", lambda OLD, starting_tensor: unchanged(OLD.guess, starting_tensor))
-@clause("quotient", lambda result, x, y, eps: _quotient(result, dense(x), y, eps))
+@icontract.snapshot(lambda x: snapshot_tt(x), name="x")
+@icontract.snapshot(lambda y: snapshot_tt(y), name="y")
+@clause("guess_unchanged", lambda OLD, starting_tensor, x, y: unchanged_named(
+    [("starting_tensor (initial guess)", OLD.guess, starting_tensor), ("x", OLD.x, x), ("y", OLD.y, y)]))
+@clause("quotient", lambda result, OLD, eps: _quotient(result, dense(frozen(OLD.x)), frozen(OLD.y), eps))
 @clause("finite", lambda result: _finite(result))
 @clause("shape", lambda result, y: _shape(result, y))
 @clause("is_tt", lambda result: _is_tt(result))
@@ -80,23 +88,28 @@ def elementwise_divide(x, y, eps, starting_tensor, preconditioner):
                                       preconditioner=preconditioner, verbose=False)
 
 
-def _exact_scalar(result, x_old_dense, s):
-    expected = x_old_dense / float(s)
-    rd = dense(result)
-    if list(rd.shape) != list(expected.shape):
-        return False, "result has shape %s, expected %s" % (list(rd.shape), list(expected.shape))
-    err = fro(rd - expected)
-    n = fro(expected)
-    return within(err, EXACT * n, "||x/s - dense(x)/s|| (||.||=%.3e, rel.err=%.3e)" % (n, err / n if n else 0.0))
+def _exact_scalar(result, x_old, s):
+    """||dense(x/s) - dense(x)/float64(s)|| <= 4*eps64*||x/s||; both dense arrays are contracted from the cores in numpy long
+    double and the reference divides by the scalar converted to float64 (float(s)), so the only error that is measured is
+    the library's.  (dense(x)/float(s) in float64 differs from this reference by < 1 ulp per entry.)"""
+    if result.cores[0].dtype != x_old["cores"][0].dtype:
+        return False, "dtype of the quotient is %s, dtype of x is %s" % (result.cores[0].dtype, x_old["cores"][0].dtype)
+    expected = dense_longdouble(x_old["cores"]) / np.longdouble(float(s))
+    got = dense_longdouble(result.cores)
+    if got.shape != expected.shape:
+        return False, "result has %d entries, expected %d" % (got.size, expected.size)
+    err = float(np.linalg.norm(got - expected))
+    n = float(np.linalg.norm(expected))
+    return within(err, EXACT * n, "||x/s - dense(x)/float64(s)|| (s=%r, ||x/s||=%.3e, rel.err=%.3e = %.2f eps64)" % (
+        s, n, err / n if n else 0.0, (err / n / 2.220446049250313e-16) if n else 0.0))
 
 
 @contract
 @icontract.snapshot(lambda x: snapshot_tt(x), name="x")
-@icontract.snapshot(lambda x: dense(x).clone(), name="xd")
 @clause("x_modified", lambda OLD, x: unchanged(OLD.x, x))
 @clause("aliasing", lambda result, x: (
     all(rc is not xc for rc, xc in zip(result.cores[:1], x.cores[:1])), "result shares its first core object with x"))
-@clause("exact", lambda result, OLD, s: _exact_scalar(result, OLD.xd, s))
+@clause("exact", lambda result, OLD, s: _exact_scalar(result, OLD.x, s))
 @clause("shape", lambda result, x: (shape_of(result) == shape_of(x) and result.is_ttm == x.is_ttm,
                                     "expected shape %s, got %s" % (shape_of(x), shape_of(result))))
 @clause("is_tt", lambda result: _is_tt(result))
@@ -125,6 +138,25 @@ def make_scalar(kind, value):
         return torch.tensor(float(value), dtype=torch.float64)
     if kind == "torch1":
         return torch.tensor([float(value)], dtype=torch.float64)
+    # round 3: scalars whose own precision is lower than float64 / integer scalars (reference divides by float(scalar))
+    if kind == "np.float32":
+        return np.float32(value)
+    if kind == "np.float16":
+        return np.float16(value)
+    if kind == "torch0d_f32":
+        return torch.tensor(float(value), dtype=torch.float32)
+    if kind == "torch1_f32":
+        return torch.tensor([float(value)], dtype=torch.float32)
+    if kind == "torch0d_i64":
+        return torch.tensor(int(value), dtype=torch.int64)
+    if kind == "torch1_i64":
+        return torch.tensor([int(value)], dtype=torch.int64)
+    if kind == "torch0d_i32":
+        return torch.tensor(int(value), dtype=torch.int32)
+    if kind == "np.int32":
+        return np.int32(value)
+    if kind == "np.int64":
+        return np.int64(value)
     raise ValueError(kind)
 
 
@@ -150,7 +182,12 @@ def run_case(a, check):
         check(None, lambda: scalar_div_tt(s, y))
     elif op == "elementwise_divide":
         x = scale_tt(torchtt, rand_tt(torchtt, N, a["rx"], dt), a.get("s_x"))
-        g = None if a["guess"] is None else torchtt.random(N, a["guess"], dtype=dt)
+        if a["guess"] == "x":
+            g = x                       # round 3: the numerator object itself is the starting tensor
+        elif a["guess"] == "y":
+            g = y                       # ... or the denominator object
+        else:
+            g = None if a["guess"] is None else torchtt.random(N, a["guess"], dtype=dt)
         seed_all(a["seed"] + 7919)
         check(None, lambda: elementwise_divide(x, y, a["eps"], g, a["prec"]))
     else:
@@ -250,6 +287,38 @@ def enumerate_cases(tier, seed):
             for s in seeds:
                 cases.append(_mk("tt_div_scalar", N, s, rx=2, skind=skind, s=val, ttm=True))
     cases += scaled_cases(tier, seed)
+    cases += round3_cases(tier, seed)
+    return cases
+
+
+def round3_cases(tier, seed):
+    """Round 3: (a) starting_tensor IS the numerator / denominator object; (b) x / c for scalars c of lower precision than
+    float64 (np.float32, float32 0-d / 1-element tensors, np.float16) and integer scalars (int64 / int32 tensors, np.int32,
+    np.int64) with values that are not powers of two."""
+    quick = tier == "quick"
+    cases = []
+    shapes = [[2, 3], [5, 4], [3, 4, 2], [3, 1, 4]] if quick else [[2, 3], [5, 4], [1, 4], [3, 4, 2], [3, 1, 4], [5, 5, 5], [2, 3, 2, 3]]
+    seeds = [seed] if quick else [seed, 1]
+    for N in shapes:
+        for which in ("x", "y"):
+            for eps in ([1e-4, 1e-8] if quick else [1e-3, 1e-6, 1e-8, 1e-10]):
+                for p in (None, "c"):
+                    for rz in (1, 2):
+                        for s in seeds:
+                            cases.append(_mk("elementwise_divide", N, s, rx=2, rz=rz, eps=eps, guess=which, prec=p))
+    float_kinds = ["np.float32", "torch0d_f32", "torch1_f32"] + ([] if quick else ["np.float16"])
+    int_kinds = ["torch0d_i64", "np.int32"] + ([] if quick else ["torch1_i64", "torch0d_i32", "np.int64"])
+    sc_shapes = [[4], [2, 3], [3, 1, 4], [(2, 2), (3, 2)]] if quick else [[4], [2, 3], [3, 1, 4], [2, 3, 2, 3], [(2, 3)],
+                                                                          [(2, 2), (3, 2)], [(2, 1), (1, 3), (2, 2)]]
+    for N in sc_shapes:
+        ttm = isinstance(N[0], tuple)
+        for s in seeds:
+            todo = [(k, v) for k in float_kinds for v in (3.0, 7.0, 0.3, 1e-3)] + [(k, v) for k in int_kinds for v in (3, 7)]
+            for (skind, val) in todo:
+                kw = dict(rx=2, skind=skind, s=val)
+                if ttm:
+                    kw["ttm"] = True
+                cases.append(_mk("tt_div_scalar", N, s, **kw))
     return cases
 
 
@@ -268,6 +337,13 @@ def bound(tier, seed):
                 "of rank 2 rescaled by {first core x1e-6, last core x1e6, 1e-6 spread, 1e6 spread, core k x10**(3(-1)**k)}, rz in "
                 "{1,2}: x / y, elementwise_divide (eps {1e-4,1e-8}, guess {None, rank 2}, preconditioner {None,'c'}), s / y for s in "
                 "{1e-6,-1e6,torch.tensor([1e6]),1e3}, and x / s for s in {1e-6,1e6,3} on rescaled x ([2,3],[3,1,4],[(2,2),(3,2)]); "
-                "same relative contracts." % seed)
+                "same relative contracts. ROUND 3: elementwise_divide has clause guess_unchanged (starting_tensor, x and y bit-for-bit as "
+                "before the call) and all quotient oracles use snapshots taken before the call; x / y and s / y have clause "
+                "operands_unchanged; extra cases with starting_tensor = the numerator object x and = the denominator object y "
+                "(shapes {[2,3],[5,4],[3,4,2],[3,1,4]}, eps {1e-4,1e-8}, prec {None,'c'}, rz {1,2}); x / c for c in {np.float32, "
+                "torch.tensor(c,float32), torch.tensor([c],float32)} x {3,7,0.3,1e-3} and {torch.tensor(c) int64, np.int32} x {3,7} "
+                "on {[4],[2,3],[3,1,4],[(2,2),(3,2)]}. The exactness clause of x / c (all scalar kinds) is now "
+                "||dense(x/c) - dense(x)/float(c)|| <= 4*eps64*||x/c|| with both sides contracted in numpy long double, and the "
+                "quotient must keep the dtype of x." % seed)
     return ("C13 thorough: as quick with 14 shapes of order 2..5 (sizes 1..10), rx in {1,2,4}, rz in {1,2}, eps in "
             "{1e-3,1e-6,1e-8,1e-10} (tol = eps exactly), starting_tensor in {None, rank 1, rank 3}, seeds {%d,1,2}." % seed)
